@@ -10,6 +10,7 @@ R5 static properties are copied onto the entity, except the frozen bookkeeping k
 from __future__ import annotations
 
 import ast
+import re
 from pathlib import Path
 
 from ..cfg import CFG, EXIT
@@ -17,6 +18,7 @@ from ..core import VERIF, AnalysisError, Func, Module, Repo, Report, call_name, 
 from ..dataflow import DefUse
 from ..resolve import Resolver
 from ..sites import guard_chain
+from .util import canon, cguards
 
 BOOKKEEPING = {"entity_obj": "pre-built draftsman object", "footprint": "layout footprint, not a prototype attribute",
                "property_writes": "circuit-driven properties, applied separately"}
@@ -44,6 +46,7 @@ def _key_origin(f: Func, key: ast.AST, at: ast.AST | None = None) -> tuple[str, 
     Every contribution to the key (list definitions, appends, loop iterables) must be compiler-owned."""
     du = DefUse(f)
     pm = parents_map(f.node)
+    cf_ = canon(f)
     kinds: set[str] = set()
     evidence: list[str] = []
     seen: set[str] = set()
@@ -52,10 +55,10 @@ def _key_origin(f: Func, key: ast.AST, at: ast.AST | None = None) -> tuple[str, 
         st = node
         while not isinstance(st, ast.stmt):
             st = pm[st]
-        return [(norm(t), pol) for t, pol in guard_chain(f, st, pm)]
+        return [(cf_.text(t), pol) for t, pol in guard_chain(f, st, pm)]
 
     def classify_value(e: ast.AST, gs: list[tuple[str, bool]]) -> None:
-        txt = norm(e)
+        txt = cf_.text(e) if e in cf_.pm else norm(e)
         if any("is_power_pole" in g and ((pol and not g.startswith("not ")) or ((not pol) and g.startswith("not "))) for g, pol in gs):
             kinds.add("pole")
             evidence.append("ids appended only under the is_power_pole flag")
@@ -124,61 +127,71 @@ def run(repo: Repo, rep: Report, tier: str) -> None:
     rep.rule("C09-R1", "a coordinate whose constant value can be extracted is returned as that int; x and y reach IRPlaceEntity.x/.y in order; "
              "_place_user_entity marks the position user-specified exactly when both are int and stores them unmodified; the emitter assigns the centre")
     ec = el.methods["_extract_coordinate"]
+    cec = canon(ec)
     rets = [n for n in walk_local(ec.node) if isinstance(n, ast.Return) and n.value is not None]
-    du = DefUse(ec)
-    const_ret = [r for r in rets if isinstance(r.value, ast.Name) and any(isinstance(v, ast.Call) and call_name(v) == "_try_extract_const_value" for v in du.value_exprs(r.value.id))]
-    pm = parents_map(ec.node)
-    ok = bool(const_ret) and any("is not None" in norm(t) and pol for t, pol in guard_chain(ec, const_ret[0], pm))
-    rep.check(ok, "C09-R1", "_extract_coordinate returns the extracted constant unchanged", norm(const_ret[0]) if const_ret else "no return of the extracted constant", ec.loc(const_ret[0]) if const_ret else ec.loc())
+    const_ret = [r for r in rets if cec.text(r.value).startswith("self._try_extract_const_value(")]
+    ok = bool(const_ret) and any(t == cec.text(const_ret[0].value) + " is not None" and pol for t, pol in cguards(ec, const_ret[0]))
+    rep.check(ok, "C09-R1", "_extract_coordinate returns the extracted constant unchanged", cec.text(const_ret[0].value) if const_ret else "no return of the extracted constant", ec.loc(const_ret[0]) if const_ret else ec.loc())
     tev = el.methods["_try_extract_const_value"]
-    br = [n for n in walk_local(tev.node) if isinstance(n, ast.If) and "isinstance(op, IRConst)" in norm(n.test)]
-    ok = bool(br) and len(br[0].body) == 1 and isinstance(br[0].body[0], ast.Return) and norm(br[0].body[0].value) == "op.value"
+    ctev = canon(tev)
+    br = [n for n in walk_local(tev.node) if isinstance(n, ast.If) and re.fullmatch(r"isinstance\((.+), IRConst\)", ctev.text(n.test))]
+    ok = False
+    if br:
+        opx = re.fullmatch(r"isinstance\((.+), IRConst\)", ctev.text(br[0].test)).group(1)
+        ok = len(br[0].body) == 1 and isinstance(br[0].body[0], ast.Return) and ctev.text(br[0].body[0].value) == opx + ".value"
     rep.check(ok, "C09-R1", "_try_extract_const_value yields the value of every constant node",
               "IRConst -> op.value" if ok else "the IRConst branch has extra conditions or returns something else: some compile-time coordinates become solver-chosen", tev.loc(br[0]) if br else tev.loc())
     epc = el.methods["_extract_place_coordinates"]
-    dup = DefUse(epc)
+    cepc = canon(epc)
     rt = [n for n in walk_local(epc.node) if isinstance(n, ast.Return)]
     ok = False
     if rt and isinstance(rt[0].value, ast.Tuple) and len(rt[0].value.elts) == 2:
-        srcs = []
-        for e in rt[0].value.elts:
-            lv = " ".join(norm(v) for v in dup.expand(e)) + " ".join(norm(v) for x in ast.walk(e) if isinstance(x, ast.Name) for vv in dup.value_exprs(x.id) for v in dup.expand(vv))
-            srcs.append(lv)
-        full = [" ".join(norm(v) for v in _deep(dup, e)) for e in rt[0].value.elts]
-        ok = "args[1]" in full[0] and "args[2]" not in full[0] and "args[2]" in full[1] and "args[1]" not in full[1]
+        full = [cepc.text(e) for e in rt[0].value.elts]
+        ok = "args[1]" in full[0] and "args[2]" not in full[0] and "args[2]" in full[1] and "args[1]" not in full[1] and all(t.startswith("self._extract_coordinate(") for t in full)
     rep.check(ok, "C09-R1", "x comes from argument 1 and y from argument 2 of place()", norm(rt[0].value) if rt else "", epc.loc())
     lpc = el.methods["_lower_place_core"]
+    clpc = canon(lpc)
     pcs = calls_in(lpc.node, "place_entity")
-    ok = bool(pcs) and len(pcs[0].args) >= 4 and norm(pcs[0].args[2]) == "x_coord" and norm(pcs[0].args[3]) == "y_coord"
+    ok = bool(pcs) and len(pcs[0].args) >= 4 and clpc.text(pcs[0].args[2]) == "self._extract_place_coordinates(expr)[0]" and clpc.text(pcs[0].args[3]) == "self._extract_place_coordinates(expr)[1]"
     rep.check(ok, "C09-R1", "place_entity receives (x, y) in order", norm(pcs[0])[:80] if pcs else "no call", lpc.loc(pcs[0]) if pcs else lpc.loc())
     bpe = repo.func("IRBuilder.place_entity")
     c = calls_in(bpe.node, "IRPlaceEntity")
     ok = bool(c) and [norm(a) for a in c[0].args[:4]] == ["entity_id", "prototype", "x", "y"]
     rep.check(ok, "C09-R1", "IRBuilder.place_entity forwards x, y unchanged", norm(c[0])[:80] if c else "", bpe.loc())
     pue = repo.func("EntityPlacer._place_user_entity")
-    us = [n for n in walk_local(pue.node) if isinstance(n, ast.Assign) and norm(n.targets[0]) == "user_specified"]
-    ok = bool(us) and norm(us[0].value) == "isinstance(op.x, int) and isinstance(op.y, int)"
-    rep.check(ok, "C09-R1", "position is user-specified exactly when both coordinates are ints", norm(us[0].value) if us else "", pue.loc(us[0]) if us else pue.loc())
-    des = [n for n in walk_local(pue.node) if isinstance(n, ast.Assign) and isinstance(n.value, ast.Tuple) and "op.x" in norm(n.value)]
-    ok = bool(des) and norm(des[0].value) in ("(int(op.x), int(op.y))", "(op.x, op.y)")
-    rep.check(ok, "C09-R1", "the placement stores (x, y) unmodified", norm(des[0].value) if des else "", pue.loc(des[0]) if des else pue.loc())
-    flag = [n for n in walk_local(pue.node) if isinstance(n, ast.Assign) and "user_specified_position" in norm(n.targets[0])]
-    pmu = parents_map(pue.node)
-    ok = bool(flag) and any(norm(t) == "user_specified" and pol for t, pol in guard_chain(pue, flag[0], pmu)) and norm(flag[0].value) == "True"
-    rep.check(ok, "C09-R1", "user_specified_position is set under that condition", norm(flag[0]) if flag else "", pue.loc(flag[0]) if flag else pue.loc())
+    cpue = canon(pue)
+    BOTH = "isinstance(op.x, int) and isinstance(op.y, int)"
     role = [c for c in calls_in(pue.node, "EntityPlacement")]
-    ok = bool(role) and kwarg(role[0], "role") is not None and norm(kwarg(role[0], "role")) == "'user_entity'" and norm(kwarg(role[0], "entity_type")) == "prototype"
-    rep.check(ok, "C09-R1", "one placement of the requested prototype with role user_entity per IRPlaceEntity", norm(role[0])[:100] if role else "", pue.loc())
+    posk = kwarg(role[0], "position") if role else None
+    alts = sorted(cpue.alts(posk)) if posk is not None else []
+    # the tuple alternative must be assigned under the both-int condition, the None alternative otherwise
+    tuple_defs = [n for n in walk_local(pue.node) if isinstance(n, ast.Assign) and isinstance(n.value, ast.Tuple) and "op.x" in norm(n.value)]
+    ok = bool(tuple_defs) and any(t == BOTH and pol for t, pol in cguards(pue, tuple_defs[0]))
+    rep.check(ok, "C09-R1", "position is user-specified exactly when both coordinates are ints", "; ".join(("" if p_ else "not ") + t for t, p_ in cguards(pue, tuple_defs[0])) if tuple_defs else "", pue.loc(tuple_defs[0]) if tuple_defs else pue.loc())
+    ok = bool(alts) and set(alts) <= {"(int(op.x), int(op.y))", "(op.x, op.y)", "None"} and len(alts) == 2 and "None" in alts
+    rep.check(ok, "C09-R1", "the placement stores (x, y) unmodified", str(alts), pue.loc(role[0]) if role else pue.loc())
+    flag = [n for n in walk_local(pue.node) if isinstance(n, ast.Assign) and "user_specified_position" in norm(n.targets[0])]
+    ok = bool(flag) and any(t == BOTH and pol for t, pol in cguards(pue, flag[0])) and norm(flag[0].value) == "True"
+    rep.check(ok, "C09-R1", "user_specified_position is set under that condition", "under " + BOTH if ok else "", pue.loc(flag[0]) if flag else pue.loc())
+    ok = bool(role) and kwarg(role[0], "role") is not None and norm(kwarg(role[0], "role")) == "'user_entity'" and cpue.text(kwarg(role[0], "entity_type")) == "op.prototype"
+    rep.check(ok, "C09-R1", "one placement of the requested prototype with role user_entity per IRPlaceEntity", "EntityPlacement(entity_type=op.prototype, role='user_entity')" if ok else "", pue.loc())
     opt = repo.func("LayoutPlanner._optimize_positions")
-    asg = [n for n in walk_local(opt.node) if isinstance(n, ast.Assign) and norm(n.targets[0]) == "placement.position"]
-    duo = DefUse(opt)
-    ok = bool(asg) and isinstance(asg[0].value, ast.Tuple) and all(
-        any(norm(v) in (f"tile_{a} + {d} / 2.0", f"tile_{a} + {d} / 2") for v in duo.expand(e)) for e, a, d in zip(asg[0].value.elts, "xy", ("width", "height")))
-    rep.check(ok, "C09-R1", "tile -> centre conversion is tile + footprint/2", "; ".join(norm(v) for e in asg[0].value.elts for v in duo.expand(e)) if asg else "", opt.loc(asg[0]) if asg else opt.loc())
+    copt = canon(opt)
+    asg = [n for n in walk_local(opt.node) if isinstance(n, ast.Assign) and isinstance(n.targets[0], ast.Attribute) and n.targets[0].attr == "position" and isinstance(n.value, ast.Tuple) and len(n.value.elts) == 2]
+    ok = bool(asg)
+    shown = []
+    if asg:
+        recv = copt.text(asg[0].targets[0].value)
+        for i, e in enumerate(asg[0].value.elts):
+            t = copt.text(e)
+            shown.append(t[-70:])
+            m_ = re.fullmatch(r"ELEM\((.+)\.items\(\)\)\[1\]\[%d\] \+ (.+)\.properties\.get\('footprint', \(1, 1\)\)\[%d\] / 2(\.0)?" % (i, i), t)
+            ok = ok and m_ is not None and m_.group(2) == recv and recv == f"self.layout_plan.entity_placements.get(ELEM({m_.group(1)}.items())[0])"
+    rep.check(ok, "C09-R1", "tile -> centre conversion is tile + footprint/2", "; ".join(shown), opt.loc(asg[0]) if asg else opt.loc())
     ce = repo.func("PlanEntityEmitter.create_entity")
     pos = [n for n in walk_local(ce.node) if isinstance(n, ast.Assign) and norm(n.value) == "placement.position"]
-    ok = bool(pos) and norm(pos[0].targets[0]) == "entity.position"
-    rep.check(ok, "C09-R1", "the emitter assigns the centre to entity.position", norm(pos[0]) if pos else "", ce.loc(pos[0]) if pos else ce.loc())
+    ok = bool(pos) and isinstance(pos[0].targets[0], ast.Attribute) and pos[0].targets[0].attr == "position" and isinstance(pos[0].targets[0].value, ast.Name) and pos[0].targets[0].value.id != "placement"
+    rep.check(ok, "C09-R1", "the emitter assigns the centre to entity.position", "<entity>.position = placement.position" if ok else "", ce.loc(pos[0]) if pos else ce.loc())
 
     # ---------------- R2 ---------------------------------------------------------------
     rep.rule("C09-R2", "every store into a position mapping returned by IntegerLayoutEngine is solver.Value of the entity's own variables, the fixed table entry, "
@@ -189,38 +202,41 @@ def run(repo: Repo, rep: Report, tier: str) -> None:
         ret_ann = norm(m.node.returns) if m.node.returns is not None else ""
         if "dict[str, tuple[int, int]]" not in ret_ann and m.name != "_extract_result":
             continue
-        pmm = parents_map(m.node)
+        cm = canon(m)
+        returned = {n.value.id for n in walk_local(m.node) if isinstance(n, ast.Return) and isinstance(n.value, ast.Name)}
         stores: list[tuple[ast.AST, ast.AST, ast.AST]] = []
         for n in walk_local(m.node):
-            if isinstance(n, ast.Assign) and isinstance(n.targets[0], ast.Subscript) and isinstance(n.targets[0].value, ast.Name) and "position" in n.targets[0].value.id:
+            if isinstance(n, ast.Assign) and isinstance(n.targets[0], ast.Subscript) and isinstance(n.targets[0].value, ast.Name) and n.targets[0].value.id in returned:
                 stores.append((n, n.targets[0].slice, n.value))
             elif isinstance(n, ast.DictComp) and isinstance(n.value, ast.Tuple):
                 stores.append((n, n.key, n.value))
         for st, key, val in stores:
             n_stores += 1
-            v = norm(val)
-            stmt = st
-            while not isinstance(stmt, ast.stmt):
-                stmt = pmm[stmt]
-            guards = guard_chain(m, stmt, pmm)
-            if "solver.Value" in v and not any(isinstance(x, ast.BinOp) for x in ast.walk(val)):
+            cv = cm.node(val)
+            v = norm(cv)
+            guards = cguards(m, st)
+            if any(isinstance(x, ast.Call) and call_name(x) == "Value" for x in ast.walk(cv)) and not any(isinstance(x, ast.BinOp) for x in ast.walk(cv)):
                 ok, why = True, "solver value of the entity's own variables"
             elif v.startswith("self.fixed_positions["):
                 ok, why = True, "copied from the fixed table"
-            elif any("self.fixed_positions" in norm(t) and ((not pol and " in " in norm(t) and " not in " not in norm(t)) or (pol and " not in " in norm(t))) for t, pol in guards):
+            elif any("self.fixed_positions" in t and ((not pol and " in " in t and " not in " not in t) or (pol and " not in " in t)) for t, pol in guards):
                 ok, why = True, "guarded by not-fixed"
             else:
-                ok, why = False, f"stores {v} for every id of the component, fixed or not: a user-placed entity is moved"
-            rep.check(ok, "C09-R2", f"{m.short}: position store `{norm(key)} -> {v[:50]}` preserves fixed positions", why, m.loc(st))
+                ok, why = False, f"stores {norm(val)} for every id of the component, fixed or not: a user-placed entity is moved"
+            rep.check(ok, "C09-R2", f"{m.short}: position store `{_shape(val)}` preserves fixed positions", why, m.loc(st))
     rep.floor("C09-R2", "position-mapping stores in the layout engine", n_stores, 3)
     cpv = eng.methods["_create_position_variables"]
-    fixed_vars = [c for c in calls_in(cpv.node, "NewIntVar") if norm(c.args[0]) == norm(c.args[1]) and "fixed" in norm(c.args[0])]
+    ccpv = canon(cpv)
+    fixed_vars = [c for c in calls_in(cpv.node, "NewIntVar") if ccpv.text(c.args[0]) == ccpv.text(c.args[1]) and "self.fixed_positions" in ccpv.text(c.args[0])]
     rep.check(len(fixed_vars) == 2, "C09-R2", "fixed ids get variables with a singleton domain", "; ".join(norm(c)[:50] for c in fixed_vars), cpv.loc())
     ifp = eng.methods["_identify_fixed_positions"]
-    tiles = [n for n in walk_local(ifp.node) if isinstance(n, ast.Assign) and isinstance(n.value, ast.Tuple) and "int(placement.position[0])" in norm(n.value)]
-    pmi = parents_map(ifp.node)
-    ok = bool(tiles) and any("is_user_specified" in norm(t) and pol for t, pol in guard_chain(ifp, tiles[0], pmi)) and norm(tiles[0].value) == "(int(placement.position[0]), int(placement.position[1]))"
-    rep.check(ok, "C09-R2", "user positions enter the solver as the tile the program wrote", norm(tiles[0].value) if tiles else "", ifp.loc(tiles[0]) if tiles else ifp.loc())
+    cifp = canon(ifp)
+    tiles = [n for n in walk_local(ifp.node) if isinstance(n, ast.Assign) and isinstance(n.value, ast.Tuple) and len(n.value.elts) == 2 and re.fullmatch(r"\(int\((.+)\.position\[0\]\), int\((.+)\.position\[1\]\)\)", cifp.text(n.value))]
+    ok = False
+    if tiles:
+        m2 = re.fullmatch(r"\(int\((.+)\.position\[0\]\), int\((.+)\.position\[1\]\)\)", cifp.text(tiles[0].value))
+        ok = m2.group(1) == m2.group(2) and any("user_specified" in t and pol for t, pol in cguards(ifp, tiles[0]))
+    rep.check(ok, "C09-R2", "user positions enter the solver as the tile the program wrote", cifp.text(tiles[0].value)[-80:] if tiles else "", ifp.loc(tiles[0]) if tiles else ifp.loc())
 
     # ---------------- R3 ---------------------------------------------------------------
     rep.rule("C09-R3", "until _optimize_positions stores tile + footprint/2, a user placement's position is a tile: every function reachable from the layout phases "
@@ -244,20 +260,24 @@ def run(repo: Repo, rep: Report, tier: str) -> None:
     for f in sorted(reach, key=lambda x: x.qual):
         if ".layout." not in f.module.name + ".":
             continue
-        pmf = None
+        cf_ = None
+        k_ = 0
         for n in walk_local(f.node):
-            if isinstance(n, ast.BinOp) and isinstance(n.op, ast.Sub) and ".position[" in norm(n.left) and "/ 2" in norm(n.right):
+            if isinstance(n, ast.BinOp) and isinstance(n.op, ast.Sub):
+                cf_ = cf_ or canon(f)
+                lt, rt_ = cf_.text(n.left), cf_.text(n.right)
+                if not (".position[" in lt and "/ 2" in rt_ and lt.endswith("]")):
+                    continue
                 n_readers += 1
-                pmf = pmf or parents_map(f.node)
-                st = n
-                while not isinstance(st, ast.stmt):
-                    st = pmf[st]
-                guards = guard_chain(f, st, pmf)
-                excl = any(("user_specified" in norm(t) and not pol) or ("is_power_pole" in norm(t) and pol) or ("fixed_position" in norm(t) and pol and "user" not in norm(t)) for t, pol in guards)
+                k_ += 1
+                guards = cguards(f, n)
+                excl = any(("user_specified" in t and not pol) or ("is_power_pole" in t and pol) or ("fixed_position" in t and pol and "user" not in t) for t, pol in guards)
                 via = " <- ".join(p for p in pre if f in rs.reachable([lp.methods[p]], exact=True))
-                rep.check(excl, "C09-R3", f"{f.short} reads `{norm(n)[:60]}` as a centre only for non-user placements",
+                m3 = re.search(r"footprint'?[^\[]*\[(\d)\]", rt_)
+                short = f"<p>.position[{lt[-2]}] - <p>.footprint[{m3.group(1) if m3 else '?'}] / 2"
+                rep.check(excl, "C09-R3", f"{f.short} reads `{short}` as a centre only for non-user placements",
                           "user placements excluded by guard" if excl else
-                          f"centre-reader applied to every placement, reachable before the conversion via {via}: a user entity at tile (x, y) is taken for tile (x-1, y-1)", f.loc(n))
+                          f"centre-reader `{norm(n)[:60]}` applied to every placement, reachable before the conversion via {via}: a user entity at tile (x, y) is taken for tile (x-1, y-1)", f.loc(n))
     rep.floor("C09-R3", "centre-readers reachable before the conversion", n_readers, 2)
 
     # ---------------- R4 ---------------------------------------------------------------
@@ -298,10 +318,12 @@ def run(repo: Repo, rep: Report, tier: str) -> None:
                 skip |= {e.value for e in n.comparators[0].elts if isinstance(e, ast.Constant)}
         rep.check(skip <= set(BOOKKEEPING), "C09-R5", "only bookkeeping keys are skipped", f"skipped: {sorted(skip)}", ce.loc(lp0))
         sets = [c for c in calls_in(lp0, "setattr")]
-        ok = bool(sets) and all(norm(c.args[0]) == "entity" and norm(c.args[1]) == "key" and norm(c.args[2]) in ("value", "bool(value)") for c in sets)
+        cce = canon(ce)
+        IT = "ELEM(placement.properties.items())"
+        ok = bool(sets) and all(cce.text(c.args[1]) == f"{IT}[0]" and cce.text(c.args[2]) in (f"{IT}[1]", f"bool({IT}[1])") and isinstance(c.args[0], ast.Name) for c in sets)
         rep.check(ok, "C09-R5", "each property is set on the entity with the program's value", "; ".join(norm(c) for c in sets), ce.loc(lp0))
         props = kwarg(role[0], "properties") if role else None
-        rep.check(props is not None and norm(props).startswith("op.properties"), "C09-R5", "the placement carries the place() properties", norm(props) if props is not None else "", pue.loc())
+        rep.check(props is not None and cpue.text(props).startswith("op.properties"), "C09-R5", "the placement carries the place() properties", norm(props) if props is not None else "", pue.loc())
 
 
 def _deep(du: DefUse, e: ast.AST, depth: int = 0) -> list[ast.AST]:
@@ -313,3 +335,20 @@ def _deep(du: DefUse, e: ast.AST, depth: int = 0) -> list[ast.AST]:
             for v in du.value_exprs(n.id):
                 out += _deep(du, v, depth + 1)
     return out
+
+
+def _shape(cv: ast.AST) -> str:
+    """Local-free skeleton of a stored value (for stable obligation keys): arithmetic structure and constants kept, every other
+    sub-expression replaced by `_`."""
+
+    class T(ast.NodeTransformer):
+        def generic_visit(self, n: ast.AST) -> ast.AST:
+            if isinstance(n, (ast.Tuple, ast.BinOp, ast.UnaryOp)):
+                return super().generic_visit(n)
+            if isinstance(n, (ast.Constant, ast.operator, ast.unaryop, ast.expr_context)):
+                return n
+            return ast.Name(id="_", ctx=ast.Load())
+
+    import copy
+
+    return " ".join(ast.unparse(ast.fix_missing_locations(T().visit(copy.deepcopy(cv)))).split())
